@@ -326,6 +326,22 @@ def run_case(case):
         cfg2.dump(f2)
         if norm(json.load(open(f1))) != norm(json.load(open(f2))):
             v.append(D.viol("C17:dump-not-a-fixed-point", "dumping the reloaded configuration changes the file"))
+        # the same file rewritten with another configuration (what the `jade config ...` editing commands do) and loaded
+        # again at once: the load returns what the file holds now
+        alt = json.loads(json.dumps(case))
+        alt["reorder"] = None
+        for j in alt["jobs"]:
+            j["command"] = (j["command"].strip() + " --second-version").strip()
+        try:
+            cfg_alt = build(alt)
+            cfg_alt.dump(f1)
+            cfg_alt2 = create_config_from_file(f1)
+            a2 = [(x["name"], x["command"]) for x in map(job_view, cfg_alt.iter_jobs())]
+            b2 = [(x["name"], x["command"]) for x in map(job_view, cfg_alt2.iter_jobs())]
+            if a2 != b2:
+                v.append(D.viol("C17:reload-after-rewrite-differs", f"the file was rewritten with {a2[:3]}... and loaded again: got {b2[:3]}..."))
+        except InvalidConfiguration:
+            pass  # stripping/altering a command cannot invalidate a configuration; nothing to compare if it somehow does
         # every valid configuration is accepted
         try:
             JobSubmitter.create(cfg2, os.path.join(tmp, "out"))
